@@ -54,6 +54,8 @@ pub struct Build {
     pub p2p: bool,
     /// per-port override of `p2p` (ports beyond the list use `p2p`)
     pub p2p_ports: Vec<bool>,
+    /// ports that speak PTP 2.0 (minorVersionPTP 0)
+    pub minor_zero: Vec<bool>,
     pub filter: Option<FilterCfg>,
     pub rec_reply: ReplyMode,
     pub tlv: TlvMode,
@@ -84,6 +86,7 @@ impl Build {
             n_ports: 1,
             p2p: false,
             p2p_ports: vec![],
+            minor_zero: vec![],
             filter: None,
             rec_reply: ReplyMode::EchoDelay,
             tlv: TlvMode::None,
@@ -136,6 +139,9 @@ impl Build {
                 DelayMechanism::E2E { interval: Interval::from_log_2(self.log_delay) }
             };
             pc.master_only = self.master_only.get(i).copied().unwrap_or(false);
+            if self.minor_zero.get(i).copied().unwrap_or(false) {
+                pc.minor_ptp_version = statime::config::PtpMinorVersion::Zero;
+            }
             pc.delay_asymmetry = dur_from_units(self.asymmetry_units);
             ports.push(PortCfg { cfg: pc, filter: filter.clone(), rng_seed: self.seed.wrapping_mul(1000).wrapping_add(i as u64) });
         }
